@@ -54,7 +54,9 @@ def judge(cal, caught, expected_exc, twin, thread_delta, leaked, folder=None, cf
     if caught is None:
         v.append(("fault-swallowed", "calibrate() returned normally although the injected fault fired"))
         return v
-    if not isinstance(caught, expected_exc):
+    # (a StopIteration crossing a generator frame arrives as RuntimeError(cause=it): Python's own rule, not a swallowed error)
+    pep479 = issubclass(expected_exc, StopIteration) and isinstance(caught, RuntimeError) and isinstance(caught.__cause__, expected_exc)
+    if not isinstance(caught, expected_exc) and not pep479:
         v.append(("wrong-exception", f"calibrate() raised {type(caught).__name__}: {caught} instead of the injected {expected_exc.__name__}"))
     h = C.history(cal)
     lens = {k: len(a) for k, a in h.items()}
@@ -93,9 +95,11 @@ def judge_next(cal, exc2, rows_before, nb_before):
 def run_fault(cfg, source, k, n, twin, prefix=None, folder=False, sleep_at=None):
     """One fault position (and, for RL, one schedule). Returns (violations, controller or None, fired)."""
     rl = "scheduler" in cfg
-    models.reset(fault_at=k if source in ("model", "interrupt") else None, interrupt=source == "interrupt")
-    rec = C.Recorder(fault={source: k} if source in ("loss", "sampler") else None)
-    expected = models.InjectedModelFault if source == "model" else models.InjectedModelInterrupt if source == "interrupt" else C.InjectedFault
+    source, _, flavour = source.partition(":")   # "loss:stop" = the loss raises a StopIteration, "sampler:exit" = a SystemExit, ...
+    flavour = flavour or None
+    models.reset(fault_at=k if source in ("model", "interrupt") else None, interrupt="stop" if (source == "model" and flavour == "stop") else source == "interrupt")
+    rec = C.Recorder(fault={source: k, "exc": flavour} if source in ("loss", "sampler") else None)
+    expected = (models.InjectedModelStop if flavour == "stop" else models.InjectedModelFault) if source == "model" else models.InjectedModelInterrupt if source == "interrupt" else C.FLAVOURS[flavour]
     before = set(threading.enumerate())
     out = {}
     with C.scratch() as tmp:
@@ -108,7 +112,7 @@ def run_fault(cfg, source, k, n, twin, prefix=None, folder=False, sleep_at=None)
                 with quiet():
                     cal.calibrate(n)
                 out["caught"] = None
-            except (Exception, models.InjectedModelInterrupt) as e:  # noqa: BLE001
+            except (Exception, models.InjectedModelInterrupt, C.InjectedExit) as e:  # noqa: BLE001
                 out["caught"] = e
             out["rows"], out["nb"] = cal.n_sampled_params, cal.current_batch_index
             out["fired"] = out["caught"] is not None or (source in ("model", "interrupt") and models.N_CALLS > k) or (source == "loss" and len(rec.loss_calls) > k) or (source == "sampler" and rec.n_sample_batch > k)
@@ -345,7 +349,9 @@ def main(ctx):
     loss_faults = [("loss", k) for k in range(n * 2)]
     sampler_faults = [("sampler", k) for k in range(n + 2)]
     interrupts = [("interrupt", k) for k in range(0, n * calls_per_batch, 2)]
-    allf = model_faults + loss_faults + sampler_faults + interrupts
+    # other kinds of exception out of user code: StopIteration (swallowed by any lazy iteration around the call), SystemExit
+    flavoured = [(f"{src}:{fl}", k) for fl in ("stop", "exit") for src, ks in (("loss", range(n * 2)), ("sampler", range(n)), ("model", range(0, n * calls_per_batch, 2))) for k in ks if not (src == "model" and fl == "exit")]
+    allf = model_faults + loss_faults + sampler_faults + interrupts + flavoured
     for folder in (False, True):
         for i in range(0, len(allf), 6):
             cells.append({"cfg": base_cfg("rr", S, ens), "n": n, "faults": allf[i:i + 6], "folder": folder})
@@ -355,6 +361,10 @@ def main(ctx):
     hb = dict(base_cfg("rr", S + 1, ens), lineup=[{"cls": "Halton", "bs": 2}, {"cls": "BestBatch", "bs": 2}])
     for i in range(0, len(allf), 8):
         cells.append({"cfg": hb, "n": n, "faults": allf[i:i + 8], "folder": False})
+    # a line-up with the particle swarm (it remembers where ITS last batch starts in the history: a batch of its own that failed was never appended)
+    ps = dict(base_cfg("rr", S + 2, ens), lineup=[{"cls": "Halton", "bs": 2}, {"cls": "ParticleSwarm", "bs": 3}])
+    for i in range(0, len(allf), 8):
+        cells.append({"cfg": ps, "n": max(n, 4), "faults": allf[i:i + 8], "folder": False})
     cells.append({"kind": "early-stop", "cfg": base_cfg("rl", S, 1), "n": 6, "bound": 1 if ctx.quick else 2})
     # scripted losses x convergence precision x the loss failing at every invocation of the first two batches
     import itertools
@@ -367,7 +377,7 @@ def main(ctx):
                     sc.append({"script": list(script), "bs": bs, "p": p, "k": k, "verbose": (k + bs) % 2 == 0})
     for i in range(16):
         cells.append({"kind": "scripted-fault", "cases": sc[i::16]})
-    ctx.bounds = {"batches": n, "ensemble": ens, "early_stop": "RL scheduler left through the convergence break (no fault), every interleaving modulo independence", "lineup": [s["cls"] for s in LINEUP], "fault_sources": ["model", "loss", "sampler", "interrupt (a KeyboardInterrupt subclass raised by the model)"],
+    ctx.bounds = {"batches": n, "ensemble": ens, "early_stop": "RL scheduler left through the convergence break (no fault), every interleaving modulo independence", "lineup": [s["cls"] for s in LINEUP], "fault_sources": ["model", "loss", "sampler", "interrupt (a KeyboardInterrupt subclass raised by the model)", "StopIteration / SystemExit subclasses raised by loss, sampler, model"],
                   "fault_positions": len(allf), "scripted_losses_with_a_failing_loss": len(sc), "rr": "with and without saving folder", "rl": "every interleaving modulo commutation of independent steps (sleep sets), capped at 2000 per fault position"}
     ctx.rule = "one execution per (scheduler, folder, fault source, invocation index[, schedule]); every one injects exactly one fault"
     ctx.assumptions = ["n_jobs=1 (the fault position must be owned)", "RL + saving folder is not reachable (C04 known finding)"]
